@@ -40,6 +40,30 @@ def LLKU(reads: A[float, 3], counts: A[int, 1], G: A[int, 2], h: int, j: int, a:
     return LLK(reads, counts, UPD(G, h, j, a), P, N, n)
 
 
+@spec
+def GPRIOR(G: A[int, 2], P: int, N: int, lu: float, F: float) -> float:
+    """the assemble genotype prior as a function of the genotype: LAPRIOR of its haplotype dosage"""
+    return LAPRIOR(arr1(lambda q: DOSE(G, q, 0, N, P)), P, lu, F)
+
+
+@spec
+def GPRIORU(G: A[int, 2], h: int, j: int, a: int, P: int, N: int, lu: float, F: float) -> float:
+    return GPRIOR(UPD(G, h, j, a), P, N, lu, F)
+
+
+@spec
+def NCU(G: A[int, 2], h: int, j: int, a: int, N: int, P: int) -> int:
+    """copies of haplotype h (itself included) after cell (h, j) is set to allele a"""
+    return 1 + NCOPIES(UPD(G, h, j, a), h, N, P)
+
+
+@spec
+def MHLOG(reads: A[float, 3], counts: A[int, 1], G: A[int, 2], h: int, j: int, a: int, P: int, N: int, n: int, lu: float, F: float, temp: float) -> float:
+    """C01: log Metropolis-Hastings acceptance of the single-base mutation (h, j) -> a at inverse temperature temp:
+    min(0, temp * (log-likelihood ratio + log-prior ratio) + log(copies of h after / copies of h before))"""
+    return min(0.0, ((real(LLKU(reads, counts, G, h, j, a, P, N, n)) - real(LLK(reads, counts, G, P, N, n))) + (GPRIORU(G, h, j, a, P, N, lu, F) - GPRIOR(G, P, N, lu, F))) * temp + (real(log(NCU(G, h, j, a, N, P))) - real(log(1 + NCOPIES(G, h, N, P)))))
+
+
 @contract("mchap.assemble.mutation.base_step", machine_ints=True, props=["C09", "C01"], opt_result={"1": "cache"})
 def base_step(genotype: A[i1, 2], reads: A[f8, 3], llk: float, h: int, j: int, n_alleles: int, log_unique_haplotypes: float, inbreeding: float, temp: float, read_counts: Opt[A[i8, 1]], cache: Opt[ArrayMap]) -> Tup[float, Opt[ArrayMap]]:
     requires(0 <= h, h < len(genotype), 0 <= j, j < genotype.shape[1], len(genotype) <= 127)
@@ -75,6 +99,10 @@ def base_step(genotype: A[i1, 2], reads: A[f8, 3], llk: float, h: int, j: int, n
         invariant(forall(0, P, lambda x: forall(0, N, lambda y: implies(x != h or y != j, genotype[x, y] == old(genotype)[x, y]))))
         invariant(0 <= genotype[h, j], genotype[h, j] < n_alleles)
         invariant(forall(0, i, lambda a: llks[a] == LLKU(reads, CN, old(genotype), h, j, a, P, N, len(reads))))
+        # C01: the Metropolis-Hastings log acceptance of every other allele
+        invariant(val(genotype) == arr2(lambda x, y: ite(x == h and y == j, genotype[h, j], old(genotype)[x, y])))
+        invariant(lprior == GPRIOR(old(genotype), P, N, log_unique_haplotypes, inbreeding), lhapcount == log(1 + NCOPIES(old(genotype), h, N, P)), finite(lprior))
+        invariant(forall(0, i, lambda a: implies(a != current_nucleotide, log_accept[a] == MHLOG(reads, CN, old(genotype), h, j, a, P, N, len(reads), log_unique_haplotypes, inbreeding, temp))))
         invariant(forall(0, i, lambda a: not isnan(log_accept[a]) and implies(not isninf(log_accept[a]), log_accept[a] <= 0)))
         invariant(implies(cache is not None, AMOK(cache) and cache[2] == P * N and n_alleles <= cache[0].shape[1] and forall(0, P, lambda x: forall(0, N, lambda y: old(genotype)[x, y] < cache[0].shape[1]))))
         invariant(implies(cache is not None, COH(cache, reads, CN, P, N, len(reads))))
@@ -84,6 +112,18 @@ def base_step(genotype: A[i1, 2], reads: A[f8, 3], llk: float, h: int, j: int, n
             lemma_llk_ext(reads, CN, old(genotype), UPD(old(genotype), h, j, current_nucleotide), P, N, len(reads))
     with after_stmt("genotype[h, j] = i"):
         lemma_llk_ext(reads, CN, genotype, UPD(old(genotype), h, j, i), P, N, len(reads))
+        unfold(GPRIORU(old(genotype), h, j, i, P, N, log_unique_haplotypes, inbreeding))
+        unfold(GPRIOR(UPD(old(genotype), h, j, i), P, N, log_unique_haplotypes, inbreeding))
+        unfold(NCU(old(genotype), h, j, i, N, P))
+        unfold(MHLOG(reads, CN, old(genotype), h, j, i, P, N, len(reads), log_unique_haplotypes, inbreeding, temp))
+    with after_call("log_genotype_prior", 0):
+        unfold(GPRIOR(old(genotype), P, N, log_unique_haplotypes, inbreeding))
+        lemma_laprior_ext(dosage, arr1(lambda q: DOSE(old(genotype), q, 0, N, P)), P, log_unique_haplotypes, inbreeding)
+    with after_call("log_genotype_prior", 1):
+        lemma_laprior_ext(dosage, arr1(lambda q: DOSE(UPD(old(genotype), h, j, i), q, 0, N, P)), P, log_unique_haplotypes, inbreeding)
+    with before_stmt("choice = random_choice(probabilities)"):
+        # C01: the vector handed to the sampler is the Metropolis-Hastings kernel of the single-base mutation
+        assert_(forall(0, n_alleles, lambda a: implies(a != current_nucleotide, probabilities[a] == exp(MHLOG(reads, CN, old(genotype), h, j, a, P, N, len(reads), log_unique_haplotypes, inbreeding, temp) - real(log(n_alleles - 1))))))
     with before_stmt("probabilities[current_nucleotide] = 1 - probabilities.sum()"):
         # the vector handed to random_choice is a probability distribution
         PB = val(probabilities)
